@@ -63,6 +63,14 @@ LAMBDAS = {
     'l1': (lambda x: x + 1),
     'l2': (lambda x: x + 2),
     'la_again': (lambda x: x['a']),
+    # same byte-code, constants and names; they differ in a default argument / in a captured variable
+    'ld0': (lambda x, k=0: x[k]),
+    'ld1': (lambda x, k=1: x[k]),
+    'lkw0': (lambda x, *, k=0: x[k]),
+    'lkw1': (lambda x, *, k=1: x[k]),
+    'lc0': (lambda k: (lambda x: x[k]))(0),
+    'lc2': (lambda k: (lambda x: x[k]))(2),
+    'lc0_again': (lambda k: (lambda x: x[k]))(0),
 }
 
 # ------------------------------------------------------------------ recording sha1
@@ -243,6 +251,21 @@ def code_key(code):
     return (code.co_code, tuple(code_key(c) if hasattr(c, 'co_code') else c for c in code.co_consts), code.co_names)
 
 
+def lambda_key(fn):
+    """what identifies a lambda operation: its code key, plus - when it has any - its default arguments,
+    keyword-only defaults and the values it captured (same code with another environment is another operation)"""
+    cells = []
+    for c in (fn.__closure__ or ()):
+        try:
+            cells.append(c.cell_contents)
+        except ValueError:
+            cells.append(None)
+    env = (fn.__defaults__, fn.__kwdefaults__, tuple(cells))
+    if env == (None, None, ()):
+        return ('<lambda>', code_key(fn.__code__))
+    return ('<lambda>', code_key(fn.__code__), env)
+
+
 def leaf(o):
     return '(Leaf %d)' % intern(pickle.dumps(o))
 
@@ -268,7 +291,7 @@ def to_pv(o):
         if isinstance(fn, jug.task._getitem):
             fpv = '(mkGetitem %s)' % to_pv(fn.slice)
         elif getattr(fn, '__name__', '') == '<lambda>':
-            fpv = '(PSeq KTuple [Leaf S_lambda; %s])' % to_pv(code_key(fn.__code__))
+            fpv = '(PSeq KTuple [Leaf S_lambda; %s])' % '; '.join(to_pv(x) for x in lambda_key(fn)[1:])
         else:
             fpv = leaf(fn)
         return '(mkTasklet %s %s)' % (to_pv(o.base), fpv)
